@@ -98,6 +98,45 @@ impl Prop for C09 {
         vec![("fuzz_writer", 40_000)]
     }
 
+    fn extra(&self, tier: Tier, seed: u64, _ctx: &crate::runner::ExtraCtx) -> crate::runner::ExtraOut {
+        // length framing conformance: the bytes must be LEB128 (what grenad 0.4.7 reads) for lengths that cannot be
+        // materialised as entries; windows around every framing boundary, plus a strided walk of the whole domain
+        let mut out = crate::runner::ExtraOut::default();
+        let w: u64 = tier.pick(1 << 12, 1 << 16);
+        let max = 1u64 << 32;
+        let mut n = 0u64;
+        let mut check = |v: u64, out: &mut crate::runner::ExtraOut| -> bool {
+            n += 1;
+            if let Err(e) = crate::props::c14::check_leb128(v as u32) {
+                out.violations.push((Fail::new("c09:framing", e), serde_json::json!({"FramedLength": v})));
+                return false;
+            }
+            true
+        };
+        let mut ranges = vec![(0u64, w), (max - w, max)];
+        for b in crate::props::c14::BOUNDARIES {
+            ranges.push((b - w.min(b), b + w));
+        }
+        'outer: for (a, b) in ranges {
+            for v in a..b {
+                if !check(v, &mut out) {
+                    break 'outer;
+                }
+            }
+        }
+        let step = tier.pick(65_521u64, 1021);
+        let mut v = seed % step;
+        while v < max && out.violations.is_empty() {
+            check(v, &mut out);
+            v += step;
+        }
+        out.evaluations += n;
+        out.nontrivial += n.saturating_sub(128);
+        out.counters.insert("framed_lengths_checked".into(), n);
+        out.samples.push(serde_json::json!({"kind": "length-framing-conformance", "values": n, "window": w, "stride": step}));
+        out
+    }
+
     fn run(&self, case: &Case, obs: &mut Obs) -> Check {
         let spec = &case.spec;
         let entries = spec.src.entries();
@@ -172,6 +211,9 @@ impl Prop for C09 {
             obs.class("multi-block-index-level");
         }
         obs.add("blocks_decoded", d.blocks.len() as u64);
+        for n in &d.notes {
+            obs.class(format!("layout-note:{n}"));
+        }
         obs.nontrivial = n >= 1 && (spec.conf.codec != Codec::None || multi);
         obs.sample = Some(json!({
             "conf": spec.conf.label(), "entries": n, "file_bytes": bytes.len(), "blocks_per_depth_first8": d.per_depth().into_iter().take(8).collect::<Vec<_>>(),
